@@ -243,6 +243,43 @@ theorem C10_fresh_ids (p : Params) (hr : Repaired p) (src : Nat → Nat) (hinj :
     rw [he]
     exact fresh_of_inv hi hinj ho (Nat.le_refl _)
 
+/-- **A refused session is answered with a fresh identifier.** Over any history (any length), for a
+connection in which the server does NOT accept the offered session — `checkForResumption` answers no:
+the identifier is unknown, forged, evicted or lost, or the server still HOLDS the session but its
+version, its suite (no longer enabled after a reconfiguration, no longer offered) or the
+client-authentication policy forbid resuming it — the ServerHello, if one is sent, carries the next
+draw of the random source: never the identifier the client offered (which would make the client take
+the full handshake for a resumption) and — the source not repeating — not the identifier of any
+session object that exists anywhere. Unlike `C10_fresh_ids` there is no hypothesis that the returned
+identifier differs from the offered one: that is the conclusion. That doFullHandshake has exactly one,
+unconditional, write of the ServerHello's identifier, a new 32-byte buffer filled from `Config.rand`,
+is the regenerated fact of `C10_facts_fresh_id`. -/
+theorem C10_refused_fresh_id (p : Params) (hr : Repaired p) (src : Nat → Nat) (hinj : Function.Injective src)
+    (d : Nat) (ccap scap : Int) (h : List Conn) (c : Conn) (y : Nat)
+    (href : (afterCheck p (startOf p src (reach p src d ccap scap h) c) c).2 = none)
+    (hy : (step p src (reach p src d ccap scap h) c).2.returned = some y) :
+    y = src (startOf p src (reach p src d ccap scap h) c).nId ∧
+    (step p src (reach p src d ccap scap h) c).2.offered ≠ some y ∧
+    ∀ o : Nat, o < (startOf p src (reach p src d ccap scap h) c).nObj →
+      ((startOf p src (reach p src d ccap scap h) c).heap o).id ≠ y := by
+  have hi := inv_runPres p hinj c c.pre _ (reach_inv p hr src hinj d ccap scap h)
+  unfold step at hy ⊢
+  have he := connect_refused_returned p src _ c y href hy
+  have hfresh : ∀ o : Nat, o < (startOf p src (reach p src d ccap scap h) c).nObj →
+      ((startOf p src (reach p src d ccap scap h) c).heap o).id ≠ y := by
+    intro o ho
+    rw [he]
+    exact fresh_of_inv hi hinj ho (Nat.le_refl _)
+  refine ⟨he, ?_, hfresh⟩
+  rw [connect_offered]
+  cases hl : loadedOf p (runPres p src c (reach p src d ccap scap h) c.pre) c with
+  | none => simp [offeredId]
+  | some lo =>
+    have hlo : lo < (startOf p src (reach p src d ccap scap h) c).nObj :=
+      hi.allocC _ (loadSession_some (p := p) (d := c.dst) hl).2.1 lo rfl
+    simp only [offeredId, Option.map_some, ne_eq, Option.some.injEq]
+    exact hfresh lo hlo
+
 /-! ### a failed session is not offered again -/
 
 /-- **Failed sessions are not offered again.** Over any history (any length) in which the harness
@@ -324,6 +361,17 @@ theorem C10_facts_peer :
     Facts.tlcp.resServerPeerWriters = ["Conn.processCertsFromClient"] ∧ Facts.dtlcp.resServerPeerWriters = Facts.tlcp.resServerPeerWriters ∧
     Facts.tlcp.resSessionPeerExpr = "hs.peerCertificates" ∧ Facts.dtlcp.resSessionPeerExpr = "hs.peerCertificates" ∧
     Facts.tlcp.resFullRecordsPeer = true ∧ Facts.dtlcp.resFullRecordsPeer = true ∧
+    Facts.missing = [] := by
+  decide
+
+/-- doFullHandshake (both stacks) writes the ServerHello's session identifier exactly ONCE, outside
+every condition — a new 32-byte buffer — and fills it from `Config.rand` outside every condition: a full
+handshake never names an identifier taken from anywhere else (the offered one, the session
+checkForResumption found but refused). This is what `fullBranch` of the model transcribes and what
+`C10_refused_fresh_id` / `C10_fresh_ids` rest on. -/
+theorem C10_facts_fresh_id :
+    Facts.tlcp.resSessionIdWrites = ["fresh:32"] ∧ Facts.dtlcp.resSessionIdWrites = ["fresh:32"] ∧
+    Facts.tlcp.resSessionIdRandGuards = [] ∧ Facts.dtlcp.resSessionIdRandGuards = [] ∧
     Facts.missing = [] := by
   decide
 
